@@ -23,6 +23,7 @@ PROP = dict(
         "Comdex.C10.l1_bid_moves_and_close_distributes", "Comdex.C10.l1_close_custody_counterexample",
         "Comdex.C10.price_in_band_every_reachable_state", "Comdex.C10.esm_leaves_nonvault_auction_untouched_past_end",
         "Comdex.C10.trigger_esm_moves", "Comdex.C10.esm_trigger_repeats_counterexample", "Comdex.C10.debt_custody_every_history",
+        "Comdex.C10.vault_close_distributes", "Comdex.C10.external_close_distributes", "Comdex.C10.lend_close_distributes",
     ],
     harness_tests=["TestC10"],
     monitors=["pay_le_target", "receive_le_collateral", "books_exact", "close_distributes", "posted_price", "price_monotone", "price_in_range",
